@@ -12,14 +12,23 @@ package encryption
 //@   safety
 //@   ensures err == nil ==> len(key) == 32
 
+// the data is sealed / opened under exactly the data key that was passed in
+//@ ghost var sealKey []byte
+//@ ghost var openKey []byte
 //@ func (*LocalEncryptionHandler).encryptData serves C17
 //@   returns (ct, err)
 //@   safety
+//@   modifies ghost.sealKey, computed
+//@   ghost after call Seal: ghost.sealKey := aeadKey(arg0)
+//@   ensures [key] err == nil ==> ghost.sealKey == dek
 //@   ensures [length] err == nil ==> len(ct) == 12 + len(plaintextData) + 16
 
 //@ func (*LocalEncryptionHandler).decryptData serves C17
 //@   returns (pt, err)
 //@   safety
+//@   modifies ghost.openKey, computed
+//@   ghost after call Open: ghost.openKey := aeadKey(arg0)
+//@   ensures [key] err == nil ==> ghost.openKey == dek
 //@   ensures [short-rejected] len(encryptedData) < 12 + 16 ==> err != nil
 
 //@ func (*LocalEncryptionHandler).wrapDEK serves C17
@@ -42,6 +51,7 @@ package encryption
 //@   safety
 //@   ensures [dek] err == nil ==> len(handler.defaultDEK) == 32
 //@   ensures [layout] err == nil ==> len(out) == 1 + 40 + 12 + len(data) + 16 && int(out[0]) == 40
+//@   ensures [sealed-under-dek] err == nil ==> ghost.sealKey == handler.defaultDEK
 
 // Read is total: for EVERY byte string it returns plaintext or an error, it never panics.
 //@ func (*LocalEncryptionHandler).Read serves C17
